@@ -262,6 +262,13 @@ pub fn generate(tier: Tier, rng: &mut Rng) -> Vec<Case> {
                 spec.vars.push(("y".into(), mk(200)));
                 spec.scopes.push(vec![("y".to_string(), mk(300))]);
             }
+            // host variables whose *names* contain dots are variables of their own: `x.v` selects
+            // field v of whatever `x` denotes, it never reads a variable called "x.v"
+            if root_x {
+                spec.vars.push(("x.v".into(), Value::Int(99)));
+                spec.vars.push(("y.v".into(), Value::Int(98)));
+                spec.vars.push(("x.v.v".into(), Value::Int(97)));
+            }
             for src in [
                 "[{'v': 1}, {'v': 2}].map(x, x.v)", "[{'v': 1}, {'w': 2}].map(x, has(x.v))", "[{'v': 1}].map(x, x['v'])", "[{'v': 1}].map(x, x.size())", "[{'v': 1}].map(x, size(x))", "[{'v': 1}, {'v': 2}].filter(x, x.v > 1)",
                 "[{'v': 1}].all(x, has(x.v) && x.v == 1)", "[{'v': 1}].map(y, y.v)", "[{'v': 1}].map(y, [{'v': 5}].map(x, x.v + y.v))", "[{'v': 1}].map(x, [x].map(y, y.v))", "[{'v': {'v': 7}}].map(x, x.v.v)",
